@@ -6,6 +6,7 @@ import (
 	"time"
 
 	"github.com/emitter-io/emitter/internal/message"
+	"github.com/emitter-io/emitter/internal/verifyield"
 	"github.com/emitter-io/emitter/verifsim/kernel"
 	"github.com/emitter-io/emitter/verifsim/world"
 	"github.com/weaveworks/mesh"
@@ -32,9 +33,16 @@ func runC19(c *kernel.Ctx) {
 	n := t.Range(2, 3)
 	cl := world.NewCluster(c, n, world.Licenses[2], func(i int, o *world.BrokerOpts) { o.StateDir = ":memory:" })
 	defer cl.Close()
+	// the flush of a peer queue runs on a timer goroutine: it parks at the yield
+	// points inside processSendQueue and the tape decides when it continues, so
+	// that SendTo calls land between its swap and its encode
+	baton := &kernel.Baton{}
+	verifyield.Hook = baton.Hook
+	defer func() { baton.ReleaseAll(); verifyield.Hook = nil }()
 	type rec struct {
 		id, ch, pl []byte
 		ttl        uint32
+		optional   bool // handed over, then the peer was declared unreachable before the flush: may or may not reach the transport
 	}
 	got := map[mesh.PeerName][]rec{}
 	var decodeErr error
@@ -48,7 +56,7 @@ func runC19(c *kernel.Ctx) {
 			return
 		}
 		for _, m := range f {
-			got[dst] = append(got[dst], rec{append([]byte(nil), m.ID...), append([]byte(nil), m.Channel...), append([]byte(nil), m.Payload...), m.TTL})
+			got[dst] = append(got[dst], rec{append([]byte(nil), m.ID...), append([]byte(nil), m.Channel...), append([]byte(nil), m.Payload...), m.TTL, false})
 		}
 	}
 	cl.LinkAll()
@@ -56,14 +64,27 @@ func runC19(c *kernel.Ctx) {
 	cl.AdvanceNet(6 * time.Second)
 	cl.Drain(1000)
 	sw := cl.Brokers[0].Svc.VerifSwarm()
+	if n == 2 {
+		// with two peers the creation order of their flush goroutines follows Go map
+		// iteration (merge order) and a tape index would not always name the same task
+		baton.SetActive(true)
+	}
 	want := map[mesh.PeerName][]rec{}
 	// A peer that is declared unreachable is closed together with its queue: what
 	// was handed over but not yet flushed may be dropped there instead of by the
 	// transport (it could not have been delivered anyway).
 	cl.Net.H.OnGC = func(at, peer mesh.PeerName) {
-		if at == cl.Name(0) && len(want[peer]) > len(got[peer]) {
-			c.Probe("queued-messages-dropped-with-offline-peer")
-			want[peer] = want[peer][:len(got[peer])]
+		if at == cl.Name(0) {
+			seen := map[string]bool{}
+			for _, g := range got[peer] {
+				seen[string(g.id)] = true
+			}
+			for i := range want[peer] {
+				if !seen[string(want[peer][i].id)] && !want[peer][i].optional {
+					want[peer][i].optional = true
+					c.Probe("queued-message-with-offline-peer")
+				}
+			}
 		}
 	}
 	ssids := []message.Ssid{{7, 11, 12}, {7, 11}, {9, 11, 12}}
@@ -102,16 +123,28 @@ func runC19(c *kernel.Ctx) {
 			err := sw.SendTo(dst, m)
 			c.Logf("sendto %s #%d size=%d -> err=%v", dst, seq, len(payload), err != nil)
 			if err == nil {
-				want[dst] = append(want[dst], rec{append([]byte(nil), m.ID...), append([]byte(nil), m.Channel...), append([]byte(nil), payload...), m.TTL})
+				want[dst] = append(want[dst], rec{append([]byte(nil), m.ID...), append([]byte(nil), m.Channel...), append([]byte(nil), payload...), m.TTL, false})
 			}
 		case k < 16:
 			d := []time.Duration{time.Nanosecond, time.Millisecond, 4 * time.Millisecond, 5 * time.Millisecond, 7 * time.Millisecond, time.Second, 5 * time.Second, 35 * time.Second}[t.Choose(8)]
 			cl.AdvanceNet(d)
 			c.Logf("advance %v", d)
-		case k < 18:
+		case k < 17:
 			cl.NetStep()
+		case k < 18:
+			if pk := baton.Parked(); len(pk) > 0 {
+				p := pk[t.Choose(len(pk))]
+				c.Logf("run flush task@%s (%d parked)", p.Site, len(pk))
+				baton.Release(p)
+				world.Settle()
+				c.Probe("flush-task-released-between-sends")
+			}
 		case k < 19:
 			a := 1 + t.Choose(n-1)
+			// a flush task parked across the end of its peer would face a select between
+			// "cancelled" and "tick", which Go resolves at random: let it finish first
+			baton.ReleaseAll()
+			world.Settle()
 			if t.Chance(1, 2) {
 				cl.Net.Block(cl.Name(0), cl.Name(a), true)
 				c.Fault("partition")
@@ -119,6 +152,10 @@ func runC19(c *kernel.Ctx) {
 			} else {
 				cl.Net.Block(cl.Name(0), cl.Name(a), false)
 				c.Logf("heal b0|b%d", a)
+			}
+			world.Settle()
+			if n == 2 {
+				baton.SetActive(true)
 			}
 		default: // Frame.Split at a tape-chosen bound
 			var f message.Frame
@@ -155,6 +192,8 @@ func runC19(c *kernel.Ctx) {
 			c.Failf("codec", "frame", "a frame handed to the transport does not decode: %v", decodeErr)
 		}
 	}
+	baton.ReleaseAll()
+	world.Settle()
 	cl.AdvanceNet(6 * time.Millisecond)
 	cl.AdvanceNet(6 * time.Millisecond)
 	total := 0
@@ -162,28 +201,46 @@ func runC19(c *kernel.Ctx) {
 		dst := cl.Name(i)
 		w, g := want[dst], got[dst]
 		total += len(g)
-		for j := 0; j < len(w) || j < len(g); j++ {
-			switch {
-			case j >= len(g):
-				c.Failf("peer-loss", "missing", "message %d of %d handed to peer b%d never reached the transport", j+1, len(w), i)
-			case j >= len(w):
-				c.Failf("peer-dup", "extra", "transport got %d messages for b%d, only %d were handed over", len(g), i, len(w))
-			case !bytes.Equal(w[j].id, g[j].id):
-				rule := "peer-order"
-				cnt := 0
-				for _, x := range g {
-					if bytes.Equal(x.id, w[j].id) {
+		j := 0
+		for gi, x := range g {
+			for j < len(w) && !bytes.Equal(w[j].id, x.id) && w[j].optional {
+				j++
+			}
+			if j >= len(w) || !bytes.Equal(w[j].id, x.id) {
+				cnt, known := 0, false
+				for _, y := range g {
+					if bytes.Equal(y.id, x.id) {
 						cnt++
 					}
 				}
-				if cnt == 0 {
-					rule = "peer-loss"
-				} else if cnt > 1 {
-					rule = "peer-dup"
+				for _, y := range w {
+					if bytes.Equal(y.id, x.id) {
+						known = true
+					}
 				}
-				c.Failf(rule, "mismatch", "position %d for b%d: handed over id % x, transport got % x (that id reached the transport %d times)", j, i, w[j].id[8:12], g[j].id[8:12], cnt)
-			case !bytes.Equal(w[j].ch, g[j].ch) || !bytes.Equal(w[j].pl, g[j].pl) || w[j].ttl != g[j].ttl:
-				c.Failf("codec", "message", "message %d for b%d changed on its way to the transport", j, i)
+				rule := "peer-order"
+				switch {
+				case cnt > 1:
+					rule = "peer-dup"
+				case !known:
+					rule = "peer-dup"
+				case j < len(w):
+					rule = "peer-loss"
+				}
+				exp := "nothing more"
+				if j < len(w) {
+					exp = fmt.Sprintf("id % x", w[j].id[8:12])
+				}
+				c.Failf(rule, "mismatch", "position %d for b%d: the transport got id % x (%d times in all, handed over: %v) where %s was due", gi, i, x.id[8:12], cnt, known, exp)
+			}
+			if !bytes.Equal(w[j].ch, x.ch) || !bytes.Equal(w[j].pl, x.pl) || w[j].ttl != x.ttl {
+				c.Failf("codec", "message", "message %d for b%d changed on its way to the transport", gi, i)
+			}
+			j++
+		}
+		for ; j < len(w); j++ {
+			if !w[j].optional {
+				c.Failf("peer-loss", "missing", "message %d of %d handed to peer b%d never reached the transport", j+1, len(w), i)
 			}
 		}
 	}
